@@ -111,9 +111,8 @@ class CondensedReactionGraph(MolGraph):
         :param atom2: Atom2
         """
 
-        attr["reaction"] = Change.FORMED
         if atom1 in self._atom_attrs and atom2 in self._atom_attrs:
-            self.add_bond(atom1, atom2, **attr)
+            self.add_bond(atom1, atom2, reaction=Change.FORMED, **attr)
         else:
             raise ValueError("Atoms have to be in the graph")
 
